@@ -31,6 +31,10 @@ def case_strategy(profile):
         ops.append(st.fixed_dictionaries({"t": tm, "who": who, "op": st.just("reset"), "stream": st.integers(0, 5)}))
         ops.append(st.fixed_dictionaries({"t": tm, "who": who, "op": st.just("stop"), "stream": st.integers(0, 5)}))
     ops.append(st.fixed_dictionaries({"t": tm, "who": who, "op": st.just("ping")}))
+    if profile.get("dgram"):
+        # DATAGRAM frames: fixed-size frames that either fit into what the window leaves or wait
+        ops.append(st.fixed_dictionaries({"t": tm, "who": who, "op": st.just("dgram"), "n": st.sampled_from([1, 100, 600, 900, 1100])}))
+        ops.append(st.fixed_dictionaries({"t": tm, "who": who, "op": st.just("dgram"), "n": st.sampled_from([600, 900])}))
     if profile.get("early"):
         # written by the client before the handshake completes: 0-RTT data on a resumed connection, queued otherwise
         ops.append(st.fixed_dictionaries({"t": st.sampled_from([0.0, 0.0, 0.001, 0.02]), "who": st.just("c"), "op": st.just("write"), "stream": st.sampled_from(["bidi", "uni", 0]), "n": sizes, "fin": st.booleans(), "early": st.just(True)}))
@@ -83,7 +87,7 @@ def case_strategy(profile):
         extra = {"leaf": st.sampled_from(["ed25519", "p256", "rsa", "chain2", "chain3", "chain3", "chain-long", "chain-long"]), "retry": st.sampled_from([False, False, True]), "mute_client_after": st.sampled_from([None, None, 1, 1, 2, 3]), "resume": st.sampled_from([False, False, True])}
     elif profile.get("cfg_extra_fn") == "c08":
         # the client may have to start over: Retry, or Version Negotiation with a server that does not speak the version it started with
-        extra = {"retry": st.sampled_from([False, False, True]), "server_versions": st.sampled_from([[V1, V2], [V2, V1], [V1], [V2]]), "resume": st.sampled_from([False, False, True])}
+        extra = {"retry": st.sampled_from([False, False, True]), "server_versions": st.sampled_from([[V1, V2], [V2, V1], [V1], [V2]]), "resume": st.sampled_from([False, False, True]), "datagrams": st.just(True)}
     if profile.get("resume") and not (extra and "resume" in extra):
         extra = dict(extra or {}, resume=st.sampled_from([False, False, True]))
     if profile.get("c_keylog"):
@@ -736,7 +740,7 @@ PROFILES = {
     "C12": {"c_keylog": True, "adv_end": 3.0, "fair": 5.0, "rebind": False, "dup": True, "key_update": False, "change_cid": True, "jitter0": True},
     "C13": {"c_keylog": True, "adv_end": 3.0, "fair": 6.0, "rebind": True, "dup": True, "cfg_extra_fn": "c13", "mds": [1200, 1280, 1350, 1452, 1472, 1500], "early": True},
     "C02": {"c_keylog": True, "adv_end": 2.0, "fair": 4.0, "rebind": True, "dup": True, "cfg_extra_fn": "c08", "early": True, "max_ops": 6, "max_fates": 60},
-    "C08": {"c_keylog": True, "adv_end": 3.0, "fair": 8.0, "rebind": False, "dup": True, "big": True, "key_update": False, "cfg_extra_fn": "c08", "early": True},
+    "C08": {"c_keylog": True, "adv_end": 3.0, "fair": 8.0, "rebind": False, "dup": True, "big": True, "key_update": False, "cfg_extra_fn": "c08", "early": True, "dgram": True},
 }
 
 
